@@ -610,10 +610,11 @@ def oracle_main(runs, server_name, fault):
             info_lines = runs[ik][1].split('\n')[:-1]
             if not is_subsequence(lines, info_lines):
                 extra = [l for l in lines if l not in info_lines]
-                if extra == [''] * len(extra) and o['verbose']:
-                    fail('level_adds_blank_line_verbose', o, {'stdout_head': text[:80]}, 'a sub-sequence of the info-level stdout (no line the info-level output lacks)')
-                elif lines == ['']:
+                if lines == ['']:
+                    # nothing of the report reaches the level: the final write() prints the empty buffer (with or without -v)
                     fail('level_adds_blank_line_empty_report', o, {'stdout': text}, 'a sub-sequence of the info-level stdout (nothing left at this level: no output)')
+                elif extra == [''] * len(extra) and o['verbose']:
+                    fail('level_adds_blank_line_verbose', o, {'stdout_head': text[:80]}, 'a sub-sequence of the info-level stdout (no line the info-level output lacks)')
                 else:
                     fail('level_adds_or_alters_line', o, {'lines_not_in_info_output': extra[:3]}, 'a sub-sequence of the info-level stdout')
             nb, nbi = [l for l in lines if l != ''], [l for l in info_lines if l != '']
